@@ -268,15 +268,44 @@ class Specs:
                     bound = "min_value" if (side == "min") else "max_value"
                     b = "{ let (v, o) = <%s>::overflowing_%s(a0); if o { <%s>::%s() } else { v } }" % (L, X, L, bound)
                 out.append(Pair("E-sat", "saturating_" + X, L, ps1, L, "<%s>::saturating_%s(a0)" % (L, X), b))
+        # products and quotients saturate to min when the operand signs differ, else to max
+        for X, rhs_fixed, div in (("mul", True, False), ("div", True, True), ("mul_int", False, False),
+                                  ("div_euclid", True, True)):
+            if ("saturating_" + X) not in methods or ("overflowing_" + X) not in methods:
+                continue
+            if X == "mul_int" and not lay.signed:
+                continue          # registered above in its one-sided form
+            rty = L if rhs_fixed else lay.inner
+            ps2 = "a0: %s, a1: %s" % (L, rty)
+            rb = "a1.to_bits()" if rhs_fixed else "a1"
+            z = ("if %s == 0 { return None; } " % rb) if div else ""
+            if lay.signed:
+                side = "if (a0.to_bits() < 0) != (%s < 0) { <%s>::min_value() } else { <%s>::max_value() }" % (rb, L, L)
+            else:
+                side = "<%s>::max_value()" % L
+            a = "<%s>::saturating_%s(a0, a1)" % (L, X)
+            b = "{ let (v, o) = <%s>::overflowing_%s(a0, a1); if !o { v } else { %s } }" % (L, X, side)
+            if X == "mul_int" and lay.signed:
+                ity = lay.inner
+                b = ("{ let (v, o) = <%s>::overflowing_mul_int(a0, a1); let s = bitsel!(%s, (a0.to_bits() < 0) != (a1 < 0), %s::MIN, %s::MAX); "
+                     "<%s>::from_bits(bitsel!(%s, !o, v.to_bits(), s)) }" % (L, ity, ity, ity, L, ity))
+            if div:
+                out.append(Pair("E-sat", "saturating_" + X, L, ps2, "Option<%s>" % L,
+                                "{ %sSome(%s) }" % (z, a), "{ %sSome(%s) }" % (z, b)))
+            else:
+                out.append(Pair("E-sat", "saturating_" + X, L, ps2, L, a, b))
         # signed saturating_sub / neg / abs: side follows from the operands' signs
         if lay.signed:
             ps = "a0: %s, a1: %s" % (L, L)
+            ity = lay.inner
+            # the exact difference is negative iff a0 < a1; a sum can only overflow when both operands have the
+            # sign of the exact sum; written with the bit-mask select
             out.append(Pair("E-sat", "saturating_sub", L, ps, L, "<%s>::saturating_sub(a0, a1)" % L,
-                            "{ let (v, o) = <%s>::overflowing_sub(a0, a1); if !o { v } else if a1.to_bits() < 0 "
-                            "{ <%s>::max_value() } else { <%s>::min_value() } }" % (L, L, L)))
+                            "{ let (v, o) = <%s>::overflowing_sub(a0, a1); let s = bitsel!(%s, a0.to_bits() < a1.to_bits(), %s::MIN, %s::MAX); "
+                            "<%s>::from_bits(bitsel!(%s, !o, v.to_bits(), s)) }" % (L, ity, ity, ity, L, ity)))
             out.append(Pair("E-sat", "saturating_add", L, ps, L, "<%s>::saturating_add(a0, a1)" % L,
-                            "{ let (v, o) = <%s>::overflowing_add(a0, a1); if !o { v } else if a1.to_bits() < 0 "
-                            "{ <%s>::min_value() } else { <%s>::max_value() } }" % (L, L, L)))
+                            "{ let (v, o) = <%s>::overflowing_add(a0, a1); let s = bitsel!(%s, a0.to_bits() < 0, %s::MIN, %s::MAX); "
+                            "<%s>::from_bits(bitsel!(%s, !o, v.to_bits(), s)) }" % (L, ity, ity, ity, L, ity)))
             ps1 = "a0: %s" % L
             out.append(Pair("E-sat", "saturating_neg", L, ps1, L, "<%s>::saturating_neg(a0)" % L,
                             "{ let (v, o) = <%s>::overflowing_neg(a0); if o { <%s>::max_value() } else { v } }" % (L, L)))
@@ -556,6 +585,8 @@ class Specs:
 
 HEADER_EXTRA = """
 extern crate codec;
+/// select written as a bit mask: m is 0 when `c` holds and all ones otherwise, so this is `if c { x } else { y }`
+macro_rules! bitsel { ($t:ty, $c:expr, $x:expr, $y:expr) => {{ let m: $t = (($c) as $t).wrapping_sub(1); (($x) & !m) | (($y) & m) }}; }
 pub struct Sink(pub [u8; 64], pub usize);
 impl codec::Output for Sink {
     #[inline(never)]
